@@ -112,6 +112,11 @@ def enumerate_cases(tier, shard=0, nshards=1):
             for via in ('ref', 'range'):
                 out.append({'k': 'reuse', 'depth': depth, 'cause': cause,
                             'via': via})
+    # a cycle behind a lazily evaluated IF: everything evaluates while the
+    # guard is closed; once an input opens it the cycle must be reported
+    for length in (1, 2, 3):
+        for pre in range(0, 2 ** (length + 1)):
+            out.append({'k': 'guarded', 'len': length, 'pre': pre})
     for i, c in enumerate(out):
         if i % nshards == shard:
             yield c
@@ -342,8 +347,50 @@ def _reuse(case, res):
     return res
 
 
+def _guarded(case, res):
+    xl = lib.lib()
+    n, pre = case['len'], case['pre']
+    res.nontrivial = True
+    res.labels = ('guarded',)
+    # A1 = IF(G1>0, A<n>... cycle A1 -> A2 -> ... -> An -> A1 behind the guard
+    d = {'Sheet1!G1': 0, 'Sheet1!A1': '=IF(G1>0,A%d,0)+1' % (2 if n > 1 else 1)}
+    for i in range(2, n + 1):
+        d['Sheet1!A%d' % i] = '=A%d+1' % (i + 1 if i < n else 1)
+    d['Sheet1!D1'] = '=A1+10'
+    cells = ['Sheet1!A%d' % i for i in range(1, n + 1)] + ['Sheet1!D1']
+    m = lib.compile_dict(d)
+    ev = xl.Evaluator(m)
+    # guard closed: acyclic, A1 = 1, A_n = A1+1 (the chain runs backwards)
+    for j, c in enumerate(cells):
+        if pre >> j & 1:
+            o, det, _ = run_limited(ev, c, 10000, n + 20)
+            if o != 'value':
+                b = 'acyclic-flagged-as-cycle' if 'cycle' in str(
+                    det).lower() else 'guarded:closed-guard-fails'
+                res.fail(b, 'a value', [o, str(det)[:200]], [c, d])
+                return res
+    ev.set_cell_value('Sheet1!G1', 1)
+    for c in cells:
+        o, det, st = run_limited(ev, c, 4 * (n + 3) + 16, n + 20)
+        if o == 'value':
+            res.fail('cycle-returns-value:guarded', 'an exception reporting '
+                     'a cycle', det, [c, pre, d])
+            return res
+        if o == 'budget':
+            res.fail('cycle-not-detected-within-budget:guarded',
+                     'cycle report', [det, st], [c, pre, d])
+            return res
+        if 'cycle' not in det.lower():
+            res.fail('cycle-exception-without-cycle-report:guarded',
+                     'message mentioning a cycle', det[:300], [c, pre, d])
+            return res
+    return res
+
+
 def judge(case):
     res = Result()
+    if case['k'] == 'guarded':
+        return _guarded(case, res)
     if case['k'] == 'faildepth':
         return _faildepth(case, res)
     if case['k'] == 'reuse':
